@@ -2,7 +2,7 @@
    (k8s/Spec.v) against what NGINX does (ngx/Eval.v) under the files the REAL pipeline generated for the
    same state (handler -> graph -> configuration -> generator), for every generated request. *)
 From Coq Require Import List String ZArith Bool Arith.
-From NGF Require Export C02.PathSel lib.CaseLib lib.Str k8s.State k8s.Spec ngx.Lexer ngx.Eval.
+From NGF Require Export C02.PathSel lib.CaseLib lib.Str k8s.State k8s.Spec k8s.SpecFwd ngx.Lexer ngx.Eval ngx.EvalFwd.
 Import ListNotations.
 Local Open Scope string_scope.
 
@@ -81,11 +81,38 @@ Definition known_D34 := 34.
 Definition flip_grpc (o : outcome) : outcome :=
   match o with OProxy g bs fs t => OProxy (negb g) bs fs t | _ => o end.
 
+(* what is forwarded: the path (and Host header) the upstream receives, the path of a redirect's Location *)
+Definition forward_agree (cs : cluster) (conf : list dir) (tbl : matchtable) (q : request) : bool :=
+  match expected_forward cs q, forwarded conf tbl q with
+  | SNone, _ => true
+  | SProxy p h, FwdProxy p' h' =>
+      seqb p p' && match h with None => seqb h' "$gw_api_compliant_host" | Some x => seqb h' x end
+  | SRedirect p, FwdRedirect p' => seqb p p'
+  | _, FwdUnknown _ => false
+  | _, _ => true        (* the kind of answer is the outcome comparison's matter *)
+  end.
+
+(* class of finding D48: the answering location proxies HTTP (proxy_pass) and yet begins with the rewrite that internal
+   locations of gRPC path rules get ("^ $request_uri break"), which ends the rewrite phase before the URLRewrite of the rule:
+   createLocations passes a flag that stays set for every path rule after the first gRPC one of the server *)
+Definition known_D48 := 48.
+Definition class_D48 (conf : list dir) (tbl : matchtable) (q : request) : bool :=
+  match answering_location conf tbl q with
+  | Some (loc, _) =>
+      match dirs_named "proxy_pass" (block_of loc), dirs_named "rewrite" (block_of loc) with
+      | _ :: _, r :: _ :: _ => match d_args r with ["^"; "$request_uri"; "break"] => true | _ => false end
+      | _, _ => false
+      end
+  | None => false
+  end.
+
 Definition check_request (cs : cluster) (conf : list dir) (tbl : matchtable) (q : request) : list nat :=
   let impl := eval_http conf tbl q in
   match decide cs q with
   | DOutcome o mixed =>
-      if outcome_agree q o impl then []
+      if outcome_agree q o impl
+      then (if mixed || forward_agree cs conf tbl q then []
+            else if class_D48 conf tbl q then [code_known known_D48] else [code_violation])
       else if mixed && outcome_agree q (flip_grpc o) impl then [code_known known_D33]
       else (* finding D34: the HTTPS listener that owns the name has only invalid Routes and lost its own server: the handshake is
               rejected, or a less specific listener of the port answers in its place *)
